@@ -231,15 +231,15 @@ def _race_stage(prop, tier, seed, workdir, env, root, build, repo, **kw):
     return {'violations': viol, 'coverage': {'race_detector_cases': sum(out)}, 'notes': ['-race stress: %d cases, %d reports' % (sum(out), len(viol))]}
 
 PROPS['C05'] = dict(
-    theorem='C05_invariant, C05_return_contract, C05_deadlock_free, C05_can_complete, C05_acceptor_sound, C05_sequential_answers (Properties/C05.v)',
+    theorem='C05_invariant, C05_return_contract, C05_deadlock_free, C05_can_complete, C05_internal_runs_bounded, C05_maximal_schedules_return_every_call, C05_reach_support, C05_acceptor_sound, C05_sequential_answers (Properties/C05.v)',
     functional=True,
     level_text='Theorems over the memoizer as a transition system with one producer and any number of readers issuing any wait calls, for every interleaving: lock discipline '
                '(every access to data/maxLength/done by the lock holder), parked threads\' wake-up conditions are false (no lost wake-up), every return satisfies the wait contract '
-               '(hence sequential answers by Layer C), deadlock freedom, and every pending call can still complete (lexicographic progress measure). Tied to numberspec.go of all '
+               '(hence sequential answers by Layer C), deadlock freedom, every pending call can still complete (lexicographic progress measure), and between calls every schedule is finite (explicit bound G) and a maximal one has returned every pending wait - no fairness assumed. Tied to numberspec.go of all '
                'three versions by exhaustive and random schedule exploration of the real code under a deterministic scheduler (deadlock / wrong answer / panic detection) with '
                'sampled event traces validated by the extracted, proved-sound acceptor; plus concurrent read histories on the uninstrumented code (answers = sequential) and a '
                'race-detector run.',
-    level_note='Partial by nature: fairness of Go\'s scheduler and the Go memory model are not modelled; "no data race" is the model-level lock discipline plus the race detector run. '
+    level_note='Partial by nature: the Go memory model and sync.Mutex granting the lock to a given waiter eventually (needed only when new calls keep arriving for ever) are not modelled; "no data race" is the model-level lock discipline plus the race detector run. '
                'Trace validation covers programs of At calls (one wait per call); richer operations are covered by answer comparison only.',
     rule='cases: (a) concurrent histories: 2-4 goroutines with random read histories (C04 generator) on one shared Number, every goroutine must obtain its sequential answers; '
          '(b) schedule exploration: all schedules (DFS, up to a budget) of 2-reader x 1-call programs over sources of 0/1/99/100/101/150 digits and an endless one, DFS + random walks '
